@@ -451,6 +451,8 @@ namespace mon
          if( !( f.flags & F_ACT ) ) viol( "C04", "C04|action-while-disabled|" + t, "action of " + std::string( vname( vid ) ) + " invoked although its invocation runs with apply_mode::nothing" );
          // enclosing look-ahead without an explicit enable in between
          for( std::size_t i = R.frames.size() - 1; i-- > 0; ) {
+            // the outer half of a delegating invocation (change_action*) is the same rule attempt as the frame inside it
+            if( R.frames[ i ].delegating && R.frames[ i ].vid == R.frames[ i + 1 ].vid ) continue;
             if( R.frames[ i ].flags & F_ENABLE_RULE ) break;
             if( R.frames[ i ].flags & ( F_LOOKAHEAD | F_DISABLE_RULE ) ) { viol( "C04", "C04|action-inside-lookahead-or-disable|" + tmpl( R.frames[ i ].rtname ), "action of " + std::string( vname( vid ) ) + " invoked inside " + std::string( R.frames[ i ].name ) ); break; }
          }
@@ -728,9 +730,9 @@ namespace mon
          R.viols.clear();
       }
 
-      std::string expected_message( int vid )
+      std::string expected_message( int vid, const bool with_must_if = true )
       {
-         if( R.cfg && R.cfg->mustif && R.g && R.g->mif && vid >= 0 && R.g->mif[ vid ] ) return R.g->mif[ vid ];
+         if( with_must_if && R.cfg && R.cfg->mustif && R.g && R.g->mif && vid >= 0 && R.g->mif[ vid ] ) return R.g->mif[ vid ];
          if( vid >= 0 && std::size_t( vid ) < g_custom.size() && g_custom[ std::size_t( vid ) ] ) return g_custom[ std::size_t( vid ) ];
          return "parse error matching " + std::string( vname( vid ) );
       }
@@ -1050,7 +1052,19 @@ namespace mon
          V.set_extra( g.name );
 
          if( cfg.plain ) {
+            // the apply_mode::nothing combinations do not run the class actions of apply<> / if_apply<>, whose vetoes are part
+            // of the match result: they are compared with a reference evaluation that has actions disabled
+            ref::interp I0 = I;
+            I0.evs.clear();
+            I0.loop = false;
+            ref::ctx c1 = c0;
+            c1.act = false;
+            const ref::outcome ro_nothing = I0.ev( g.top, 0, input.size(), c1 );
+            const bool nothing_loops = I0.loop || ro_nothing.st == ref::LOOP;
+            const ref::outcome ro_action = ro;
             for( int combo = 0; combo < 4; ++combo ) {
+               if( ( combo & 1 ) && nothing_loops ) { cell( "skipped:reference-loop" ); continue; }
+               const ref::outcome ro = ( combo & 1 ) ? ro_nothing : ro_action;
                runreq rq{ gb.begin(), gb.end(), combo };
                runres rs;
                R.viols.clear();
@@ -1107,7 +1121,7 @@ namespace mon
          else if( rs.st == 2 ) {
             // identity of the global failure
             // the outer error of *_raise_nested comes from normal::raise_nested: default message or Rule::error_message, never a must_if message
-            const std::string exp = ro.nested_depth > 0 ? "parse error matching " + std::string( vname( ro.blame ) ) : expected_message( ro.blame );
+            const std::string exp = ro.nested_depth > 0 ? expected_message( ro.blame, false ) : expected_message( ro.blame );
             if( rs.msg != exp ) {
                result_ok = false;
                const char* prop = std::strcmp( g.prop, "C09" ) == 0 ? "C09" : "C05";
